@@ -1121,6 +1121,8 @@ class Processor:
                 else:
                     sliced_elements = []
                     for slice_index in range(intmin, intmax):
+                        if not -len(data) <= slice_index < len(data):
+                            continue
                         sliced_elements.append(NodeCoords(
                             data[slice_index], data, slice_index,
                             translated_path + "[{}]".format(slice_index),
